@@ -356,3 +356,32 @@ func TestKnown_C19_staking_unbonding_id_not_exported(t *testing.T) {
 	}
 	t.Log("staking exports agree: finding no longer reproduces")
 }
+
+// TestKnown_C19_poolmanager_taker_fee_share_not_exported: the governance-set taker-fee share agreements, the registered
+// alloyed pools and the amounts skimmed so far are absent from the poolmanager genesis, so the imported node pays no
+// share at the next epoch end.
+func TestKnown_C19_poolmanager_taker_fee_share_not_exported(t *testing.T) {
+	cfg := defaultCfg()
+	cfg.Alloyed = true
+	n := NewNode(Bootstrap(cfg))
+	defer n.Close()
+	src, err := n.App.PoolManagerKeeper.GetAllTakerFeesShareAgreements(n.ReadCtx())
+	if err != nil || len(src) != 2 {
+		t.Fatalf("source has %d agreements (%v), bootstrap sets 2", len(src), err)
+	}
+	imp := exportImport(t, n)
+	defer imp.Close()
+	if _, err := imp.RunBlock(5*time.Second, nil, nil); err != nil {
+		t.Fatal(err)
+	}
+	got, err := imp.App.PoolManagerKeeper.GetAllTakerFeesShareAgreements(imp.ReadCtx())
+	pools, _ := imp.App.PoolManagerKeeper.GetAllRegisteredAlloyedPools(imp.ReadCtx())
+	if err != nil || len(got) != len(src) || len(pools) != 1 {
+		drv.Reproduced(t, "C19-poolmanager-taker-fee-share-not-exported")
+		if !drv.Known("C19-poolmanager-taker-fee-share-not-exported") {
+			t.Fatalf("taker-fee share agreements: source %v, imported %v; registered alloyed pools on the imported node: %d", src, got, len(pools))
+		}
+		return
+	}
+	t.Log("taker-fee share state survived export/import: finding no longer reproduces")
+}
